@@ -91,6 +91,11 @@ pub fn seeds(tier: Tier) -> Vec<(Seed, Level)> {
             out.push((mutate::seed(&s.id, &[], &s.inst, &[]), Level::Full));
         }
     }
+    // every opcode (minimal shape) as the instruction in front of the corrupted one: the reported instruction number and
+    // offset must not depend on what precedes
+    for gi in &g.insts {
+        out.push((mutate::seed(&format!("Capability:after:{}", gi.name), &[universe::minimal(gi)], &cap, &[]), Level::Framing));
+    }
     let ctx = type_context();
     for (pre, s) in context_shapes() {
         let mut p = ctx.clone();
